@@ -47,7 +47,7 @@ type lcStep struct {
 func (s lcStep) String() string {
 	switch s.Kind {
 	case "hs":
-		return fmt.Sprintf("hs#%d(%s,rev%d)", s.Sess, s.Car, s.Rev)
+		return fmt.Sprintf("hs#%d(%s,rev%d%s)", s.Sess, s.Car, s.Rev, map[string]string{"connCloseNow": ",Close(true) in the connection listener", "connClose": ",Close(false) in the connection listener"}[s.Cause])
 	case "gateHandshake":
 		return fmt.Sprintf("gateHandshake#%d(%s,%s)", s.Sess, s.Car, s.Cause)
 	case "cause":
@@ -178,6 +178,10 @@ func genLC(rt *rapid.T, gates bool, known map[string]bool, col *Collector) []lcS
 			st.Car = rapid.SampledFrom(carriers).Draw(rt, l+".car")
 			if k == "gateTableDelete" {
 				st.Cause = rapid.SampledFrom([]string{"appCloseNow", "closePacket", "drop", "wrongHeartbeat"}).Draw(rt, l+".td")
+			}
+			if k == "hs" {
+				// the application may turn the client away inside its connection listener
+				st.Cause = rapid.SampledFrom([]string{"", "", "", "", "connCloseNow", "connClose"}).Draw(rt, l+".conn")
 			}
 			if k == "gateHandshake" {
 				st.Car = rapid.SampledFrom([]string{"websocket", "webtransport"}).Draw(rt, l+".gcar")
@@ -604,6 +608,17 @@ func (lw *lcWorld) handshake(st lcStep) {
 	} else if gated {
 		gp = lw.arm("server.Handshake.constructed")
 	}
+	connAct := ""
+	if st.Kind == "hs" && strings.HasPrefix(st.Cause, "conn") {
+		connAct = st.Cause
+		prev := w.OnConn
+		w.OnConn = func(sr *SessRec) {
+			w.OnConn = prev
+			lw.stats["closed-inside-the-connection-listener"] = true
+			sr.Sock.Close(connAct == "connCloseNow")
+		}
+		defer func() { w.OnConn = prev }()
+	}
 	switch st.Car {
 	case "polling":
 		pc := &PollClient{W: w, O: ClientOpts{Rev: st.Rev, EIO: eio}}
@@ -682,6 +697,9 @@ func (lw *lcWorld) handshake(st lcStep) {
 		if s.tc != nil && s.tc.Open != nil {
 			s.sid = s.tc.Sid
 		}
+	}
+	if connAct != "" {
+		s.addCause(map[string]string{"connCloseNow": "appCloseNow", "connClose": "appClose"}[connAct])
 	}
 	if s.sid != "" {
 		lw.allSids = append(lw.allSids, s.sid)
@@ -1056,7 +1074,7 @@ func TestC03Lifecycle(t *testing.T) {
 			}
 		})
 	}
-	req := []string{"session-closed-inside-Send", "carrier.polling", "carrier.websocket", "carrier.webtransport", "two-causes-same-instant", ">=2-causes-on-one-session", "activity-after-close", "stayed-open", "server-close"}
+	req := []string{"closed-inside-the-connection-listener", "session-closed-inside-Send", "carrier.polling", "carrier.websocket", "carrier.webtransport", "two-causes-same-instant", ">=2-causes-on-one-session", "activity-after-close", "stayed-open", "server-close"}
 	if !known[sigDoubleClose] {
 		req = append(req, "second-cause-inside-OnClose-window")
 	}
@@ -1097,7 +1115,7 @@ func TestC04Registry(t *testing.T) {
 			}
 		})
 	}
-	req := []string{"server-close", "shutdown>=2-sessions", "activity-after-close", "table-consolidated-inside-delete-window"}
+	req := []string{"server-close", "shutdown>=2-sessions", "activity-after-close", "table-consolidated-inside-delete-window", "closed-inside-the-connection-listener"}
 	if !known[sigDiedInHS] {
 		req = append(req, "cause-during-handshake")
 	}
